@@ -387,11 +387,26 @@ void orc_c07_api(const ApiRec &r, const Frame &f, const std::string &snap0, cons
     const std::string &n = r.name;
     oracle_eval("C07.context-model");
     int registered_now = 0;
-    for (auto &s : W->slots) if (s.ctx_gen == W->ctx_registrations && s.st != ST_NONE && s.st != ST_ZOMBIE && !frame_on_stack("dereg", s.idx)) registered_now++;
+    for (auto &s : W->slots) if (s.ctx_gen == W->ctx_registrations && s.st != ST_NONE && s.st != ST_ZOMBIE && !leaving(s.idx)) registered_now++;
     if (n == "ctx_reg") {
         if (W->has_ctx) { if (r.rc != -EEXIST) VIOL("C07", "C07:second-context", "registering a second context on the thread returned %d instead of -EEXIST", r.rc); }
         else if (r.rc != 0) VIOL("C07", "C07:fresh-context-refused", "registering a context on a thread without one returned %d", r.rc);
         return;
+    }
+    // inside a callback of a module registered with M_MOD_DENY_CTX the context is hidden from context-level calls: they are
+    // refused (C15 decides how); once a nested callback has run and returned inside it, visibility is unspecified here
+    if (n.rfind("ctx_", 0) == 0 || n == "loop" || n == "dispatch") {
+        for (int i = (int)W->frames.size() - 1; i >= 0; i--) {
+            const Frame &cf = W->frames[i];
+            if (!cf.is_cb) continue;
+            if (cf.slot >= 0 && (W->slots[cf.slot].flags & M_MOD_DENY_CTX)) {
+                if (cf.nested > 0 || n == "ctx_misc") return;
+                if (r.rc >= 0) VIOL("C07", "C07:context-call-from-deny-ctx-module-accepted", "%s called from a callback of a M_MOD_DENY_CTX module returned %d", n.c_str(), r.rc);
+                if (!snap1.empty() && snap0 != snap1) VIOL("C07", "C07:context-call-from-deny-ctx-module-had-effect", "refused %s changed the observable state", n.c_str());
+                return;
+            }
+            break;
+        }
     }
     if (!W->has_ctx && !f.had_ctx_at_entry) {
         // context-less thread: every context call / module operation fails and changes nothing
@@ -412,7 +427,7 @@ void orc_c07_api(const ApiRec &r, const Frame &f, const std::string &snap0, cons
         if (r.rc != 0) VIOL("C07", "C07:deregister-idle-refused", "m_ctx_deregister on an idle context returned %d", r.rc);
         for (auto &s : W->slots) {
             if (s.ctx_gen != W->ctx_registrations || s.st == ST_NONE) continue;
-            if (frame_on_stack("dereg", s.idx)) continue;   // in the middle of its own deregistration (we are inside one of its callbacks)
+            if (leaving(s.idx)) continue;   // in the middle of its own deregistration / replacement (we are inside one of its callbacks)
             if (s.st != ST_ZOMBIE)
                 VIOL("C07", "C07:module-survives-context", "module slot %d is still %s after its context was deregistered", s.idx, st_name(s.st));
             auto it = W->c07_active_before.find(s.idx);
@@ -426,7 +441,7 @@ void orc_c07_api(const ApiRec &r, const Frame &f, const std::string &snap0, cons
         if (m_ctx_len() >= 0) VIOL("C07", "C07:context-survives-deregister", "the thread still has a context after m_ctx_deregister returned 0");
         return;
     }
-    if (n == "reg" && W->ctx_finalized) {
+    if (n == "reg" && W->ctx_finalized && f.gseq > W->ctx_finalized_gseq) {   // (a registration already in progress when a callback finalised the context is not "further")
         if (r.rc >= 0) VIOL("C07", "C07:register-after-finalize", "m_mod_register in a finalised context returned %d", r.rc);
         return;
     }
